@@ -72,6 +72,9 @@ class Harness:
         kf = os.path.join(VERIF, 'known_findings.json')
         self.known = json.load(open(kf)) if os.path.exists(kf) else []
         self.quick = (tier == 'quick')
+        # per-obligation time cap (seconds): the thorough tier is sized by total wall time, not by letting every hard obligation burn
+        # its own budget; VERIF_CAP overrides
+        self.cap = float(os.environ.get('VERIF_CAP', '0') or 0) or (45 if self.quick else 75)
 
     # ------------------------------------------------------------------ bookkeeping from engine runs
     def absorb(self, ctx):
@@ -96,6 +99,7 @@ class Harness:
         """depends: lemma obligations whose statements were added to hyps; this obligation only counts as discharged
         if every one of them was itself discharged in this run"""
         timeout = timeout or (15 if self.quick else 60)
+        timeout = min(timeout, self.cap)
         if linear:
             # decide on the linear abstraction (every non-linear subterm an opaque variable): unsat there is unsat here
             from .terms import linear_abstract
@@ -238,7 +242,7 @@ class Harness:
         """Equality modulo polynomial side relations (each relation term == 0), by untrusted sympy cofactors whose
         polynomial identity is then checked by z3 (in the worker, on the original terms) with no hypotheses.
         Non-polynomial goals and goals without certificate fall back to a direct solver query."""
-        ob = Ob(name, list(hyps) + [r == 0 for r in relations], lhs == rhs, 'cert', timeout or (20 if self.quick else 60), replay, None, key, group)
+        ob = Ob(name, list(hyps) + [r == 0 for r in relations], lhs == rhs, 'cert', min(timeout or (20 if self.quick else 60), 2 * self.cap), replay, None, key, group)
         ob.deps = list(depends)
         ob.sample = list(relations)
         d = lhs - rhs
